@@ -94,6 +94,25 @@ def default_route_ok(rows, blocks, out, case):
         return
     got = [bt.name for bt, _ in delivered]
     want = [b["ty"] for b in blocks]
+    stable = None
+    try:
+        from pdtable.io.parsers.blocks import parse_blocks_stable
+        # the splitter with its own default handlers (block_handlers left out): metadata, directive and table blocks
+        # (a table that does not parse is an input error: then nothing is compared)
+        import warnings
+        with warnings.catch_warnings():
+            warnings.simplefilter("ignore")
+            stable = [bt.name for bt, _ in parse_blocks_stable(iter(rows))]
+    except Exception as e:  # noqa: BLE001
+        if type(e).__name__ != "InputError":
+            out.fail("parse_blocks_stable with its default handlers raised on a row sequence", case, repr(e)[:200],
+                     None, key="default_route_raised:" + type(e).__name__)
+            return
+    if stable is not None and stable != [t for t in want if t in ("METADATA", "DIRECTIVE", "TABLE")]:
+        out.fail("parse_blocks_stable with its default handlers does not deliver every METADATA / DIRECTIVE / TABLE "
+                 "block", case, stable, [t for t in want if t in ("METADATA", "DIRECTIVE", "TABLE")],
+                 key="default_route:stable_defaults")
+        return
     if got != want:
         out.fail("the default block handlers do not deliver one block per segmented block", case, got, want,
                  key="default_route_blocks")
@@ -245,7 +264,7 @@ KIND_SPELLINGS = {
     "template": [[":a"], ["::a", "b"], [":::"], [":x \t"], ["::\n"]],
     "key": [["author:"], ["k: "], ["****x:"], ["a b:\t", "v"], ["é:\u00a0"]],
     "plain": [["all"], ["a:b"], [":a:"], ["::::x"], ["****x"], ["*x"], ["x**"], ["a:b:"], [" **t"],
-              ["k:v"], ["-"], ["1.5"], [":" * 4]],
+              ["k:v"], ["-"], ["1.5"], [":" * 4], ["#x"], ["# comment", "y"], ["//"], ["%"]],
     "nontext": [[1], [1.5], [True], [datetime.datetime(2020, 1, 2)], [0], [float("nan")]],
 }
 KINDS = list(KIND_SPELLINGS)
@@ -351,8 +370,10 @@ def run(tier, seed, model_ok, translator, search=False):
     out.count("random_sequences", n_rand)
 
     # (c3) long inputs: origin rows beyond 255 and beyond 65535 (one long sequence of each size per run)
-    for n_long in ([300, 70000] if not thorough else [300, 5000, 70000, 200000]):
+    for n_long in ([300, 131100] if not thorough else [300, 5000, 70000, 131100, 200000]):
         kinds = [rng.choice(KINDS) if rng.random() < 0.2 else "plain" for _ in range(n_long)]
+        # … with one very long block in the middle (nothing may happen to a block at 4096 or 65536 rows)
+        kinds[n_long // 3: n_long // 3 + min(9000, n_long // 3)] = ["table"] + ["plain"] * (min(9000, n_long // 3) - 1)
         rows = [list(rng.choice(KIND_SPELLINGS[k])) for k in kinds]
         out.count("long_sequences")
         _one(rows, {"seed": seed, "long": n_long, "rows": grid_to_json(rows)}, out, ops, pending, model_ok,
